@@ -68,31 +68,37 @@ Print Assumptions C07_one_head.
 Theorem C07_merge_orphan_refuted :
   frame_violated only_merge_unvalidated prelude (RMerge (U u2) true [U u2; U u3] u4).
 Proof. exact merge_orphan_refuted. Qed.
+Print Assumptions C07_merge_orphan_refuted.
 
 (* with the uncommitted parent first, the orphan is a second root *)
 Theorem C07_merge_second_root_refuted :
   oracles_ok only_merge_unvalidated init (prelude ++ [RMerge (U u3) true [U u3; U u2] u4])%list /\
   ~ RepoInv (run only_merge_unvalidated init (prelude ++ [RMerge (U u3) true [U u3; U u2] u4])).
 Proof. exact merge_second_root_refuted. Qed.
+Print Assumptions C07_merge_second_root_refuted.
 
 Theorem C07_repeated_parent_refuted :
   oracles_ok only_merge_undistinct init (prelude ++ [RMerge (U u2) true [U u2; U u2] u4])%list /\
   ~ RepoInv (run only_merge_undistinct init (prelude ++ [RMerge (U u2) true [U u2; U u2] u4])).
 Proof. exact repeated_parent_refuted. Qed.
+Print Assumptions C07_repeated_parent_refuted.
 
 Theorem C07_duplicate_uuid_refuted :
   oracles_ok only_assign_unchecked init (prelude ++ [RTag (U u2) u1])%list /\
   ~ RepoInv (run only_assign_unchecked init (prelude ++ [RTag (U u2) u1])).
 Proof. exact duplicate_uuid_refuted. Qed.
+Print Assumptions C07_duplicate_uuid_refuted.
 
 Theorem C07_empty_uuid_refuted :
   oracles_ok only_assign_unchecked init (prelude ++ [RTag (U u2) ""])%list /\
   ~ RepoInv (run only_assign_unchecked init (prelude ++ [RTag (U u2) ""])).
 Proof. exact empty_uuid_refuted. Qed.
+Print Assumptions C07_empty_uuid_refuted.
 
 Theorem C07_tag_commits_on_error_refuted :
   frame_violated only_tag_unguarded (prelude ++ [RNewVersion (U u2) "" u4])%list (RTag (U u3) u4).
 Proof. exact tag_commits_on_error_refuted. Qed.
+Print Assumptions C07_tag_commits_on_error_refuted.
 
 (* roots "xa" and "xab": "xab:master" resolves to a node of the repo rooted at "xa" *)
 Theorem C07_head_key_collision_refuted :
@@ -101,12 +107,14 @@ Theorem C07_head_key_collision_refuted :
   st_repo_of (run only_root_unvalidated init collide) !! u4 = Some 1%N /\
   st_repo_of (run only_root_unvalidated init collide) !! "xab" = Some 2%N.
 Proof. exact head_key_collision_refuted. Qed.
+Print Assumptions C07_head_key_collision_refuted.
 
 Theorem C07_resolve_partial_refuted :
   frame_violated only_resolve_unvalidated
     (prelude ++ [RNewData (U u3) true "d1"; RCommit (U u3)])%list
     (RResolve (U u1) [("d1", [(1%nat, u5)]); ("nosuchdata", [])] [U u2; U u3] u6).
 Proof. exact resolve_partial_refuted. Qed.
+Print Assumptions C07_resolve_partial_refuted.
 
 (* ---- non-vacuity ---- *)
 
